@@ -917,7 +917,9 @@ def _ix_propose(r, st):
     if op == "reset_index":
         return {"op": op, "drop": r.random() < 0.2}
     if op == "set_index":
-        ok = [c for c in st["cols"] if c[0] != "c" and c[1] != "bool"]
+        # (not the NaN column c, not bool; an integer column label makes SetIndex._simplify_up fail: "argument of type 'int' is
+        # not iterable" - a defect of its own, not a meta matter)
+        ok = [c for c in st["cols"] if c[0] != "c" and c[1] != "bool" and isinstance(c[0], str)]
         if not ok:
             return None
         return {"op": op, "col": _prefer(r, ok, 0.4)[0], "drop": r.random() < 0.65}
@@ -1367,6 +1369,10 @@ def g_select_after(r, known):
         # index of one sort with the mask of the other): only consumers that read the sorted frame once
         for fam in ("arith2", "filter", "filter-getcol", "filter-getcols", "sfilter", "assign", "assign-getcols", "filter-index"):
             w[fam] = 0
+    if k in ("shuffle", "merge", "groupby-agg"):
+        # R[mask(R)].index becomes index(R)[mask(R')] - two copies of R paired by POSITION; where the row order of R is not
+        # specified (hash-shuffled outputs, split_out) the copies may differ in order and the result is run-dependent
+        w["filter-index"] = 0
     if k == "reduction":
         tail = {"op": "s-label", "dyn": r.randrange(2 ** 31), "label": _pick(r, NUMCOLS)} if inner["form"].endswith(":frame") and \
             inner["target"] == "num" and r.random() < 0.6 else _dyn_tail(r, _TAIL_W_F)
